@@ -15,6 +15,95 @@ BIN = {"+": "BAdd", "-": "BSub", "*": "BMul", "/": "BDiv", "%": "BMod", "**": "B
 FORMS = ["", "+", "-", "*", "/", "%"]
 
 
+# ------------------------------------------------------------------ selector spellings
+def clean_sel(s: str) -> str:
+    """mirror of ExprSpec.clean_sel (= clean_up_paren_token on the spellings generated here): blanks, tabs and
+    line breaks outside double-quoted strings are dropped, double-quoted strings are kept verbatim.
+    Cross-checked against Coq's clean_sel on every run (c02.eval_check)."""
+    out, in_string = [], False
+    for ch in s:
+        if in_string or ch not in " \t\n":
+            out.append(ch)
+        if ch == '"':
+            in_string = not in_string
+    return "".join(out)
+
+
+def canon_var(text: str) -> str:
+    """variable text with its selector cleaned (`$x` unchanged)"""
+    if text.startswith("$"):
+        return text
+    obj, sel = text.split(":", 1)
+    return obj + ":" + clean_sel(sel)
+
+
+# spellings of ONE score holder each (the first is the compact one = what JMC emits)
+SPELL_X = ["@e[tag=x,limit=1]",             # compact
+           "@e[tag=x, limit=1]",            # blank after the comma
+           "@e[tag = x,limit = 1]",         # blanks around `=`
+           "@e[ tag=x,limit=1 ]",           # blank after `[` / before `]`
+           "@e[tag=x,\n      limit=1]",     # line break inside the bracket
+           "@e[tag=x,\tlimit=1]",           # tab
+           "@e [tag=x,limit=1]",            # blank between selector and bracket
+           "@e[\n  tag = x ,\n  limit=1\n]"]
+SPELL_Q = ['@e[name="a b",limit=1]',        # a double-quoted value containing a blank
+           '@e[name="a b", limit=1]',
+           '@e[ name = "a b" ,\n limit=1]']
+# a DIFFERENT argument order is a DIFFERENT holder text: another score for JMC and for the oracle
+SPELL_X_SWAPPED = ["@e[limit=1,tag=x]", "@e[limit=1, tag=x]", "@e[ limit = 1,\ttag=x ]"]
+SPELL_Q_SWAPPED = ['@e[limit=1,name="a b"]', '@e[limit=1, name="a b" ]',
+                   '@e[name="ab",limit=1]', '@e[name="ab", limit=1]']        # differs by the blank INSIDE the string
+SPELL_FAMILIES = [(SPELL_X, SPELL_X_SWAPPED), (SPELL_Q, SPELL_Q_SWAPPED)]
+
+
+def is_bracketed(text: str) -> bool:
+    return "[" in text
+
+
+def spelled_pool(rng, obj="obj"):
+    """-> (target, same-holder spellings, other-holder variables) for the random streams"""
+    same, swapped = rng.choice([SPELL_FAMILIES[0], SPELL_FAMILIES[0], SPELL_FAMILIES[1]])
+    target = f"{obj}:{rng.choice(same)}"
+    others = [f"{obj}:{rng.choice(same)}" for _ in range(2)]
+    diff = [f"{obj}:{rng.choice(swapped)}", f"{obj}2:{rng.choice(same)}"]
+    return target, others, diff
+
+
+def spelling_cases():
+    """exhaustive-small stream: every (target spelling, operand spelling) pair of each family in thirteen shapes
+    -> list of (expression, target, form, (target spelling, operand spelling))"""
+    out = []
+    a = ("v", "$a")
+    for same, swapped in SPELL_FAMILIES:
+        n = len(same)
+        for i, ts in enumerate(same):
+            for j, os_ in enumerate(same):
+                T, T1 = f"obj:{ts}", ("v", f"obj:{os_}")
+                T2 = ("v", f"obj:{same[(i + 2 * j + 1) % n]}")          # a third spelling of the same holder
+                D = ("v", f"obj:{swapped[(i + j) % len(swapped)]}")      # the other holder
+                O2 = ("v", f"obj2:{os_}")                                # other objective, same selector
+                f1 = FORMS[(i + j) % 6]
+                f2 = FORMS[1 + (i + 2 * j) % 5]
+                shapes = [
+                    (("bin", "+", ("bin", "*", a, ("c", 2)), T1), ""),            # T := $a * 2 + T'   (the seeded bug)
+                    (("bin", "+", T1, a), ""),                                      # T := T' + $a
+                    (("bin", "-", a, T1), ""),                                      # T := $a - T'
+                    (("bin", "*", ("par", ("bin", "+", a, T1)), T2), ""),           # T := ($a + T') * T''
+                    (("bin", "*", T1, ("c", 2)), f2),                               # T :+= T' * 2 ...
+                    (("neg", T1), f1),                                              # T := -T'
+                    (("bin", "+", ("bin", "**", T1, ("c", 2)), T2), ""),            # T := T' ** 2 + T''
+                    (("bin", "+", ("bin", "*", a, ("c", 2)), D), ""),               # other holder: may be overwritten first
+                    (("bin", "-", ("bin", "+", ("bin", "*", a, ("c", 2)), O2), D), f1),
+                    (("bin", "-", ("bin", "/", a, T1), T2), f1),                    # T :<form>= $a / T' - T''
+                    (("bin", "+", ("bin", "-", ("c", 0), ("bin", "*", a, D)), T1), ""),   # T := 0 - $a * D + T'
+                    (T1, f2),                                                       # T :+= T'
+                    (("bin", "-", ("bin", "*", D, ("c", 2)), a), ""),               # other holder LEFT-MOST: it is not the target
+                ]
+                for e, form in shapes:
+                    out.append((e, T, form, (ts, os_)))
+    return out
+
+
 # ------------------------------------------------------------------ rendering (mirror of ExprSpec.render)
 def lvl(e):
     k = e[0]
